@@ -190,6 +190,20 @@ unsafe impl<T, N: ArrayLength> GenericSequence<T> for Box<GenericArray<T, N>> {
                 raw.cast()
             };
 
+            // Releases the block if `f` panics; declared before the builder so that the
+            // builder drops the already written elements first.
+            struct DeallocOnUnwind(*mut u8, Layout);
+
+            impl Drop for DeallocOnUnwind {
+                fn drop(&mut self) {
+                    if self.1.size() != 0 {
+                        unsafe { alloc::alloc::dealloc(self.0, self.1) }
+                    }
+                }
+            }
+
+            let guard = DeallocOnUnwind(ptr.cast(), layout);
+
             let mut builder = IntrusiveArrayBuilder::new(&mut *ptr);
 
             {
@@ -202,6 +216,7 @@ unsafe impl<T, N: ArrayLength> GenericSequence<T> for Box<GenericArray<T, N>> {
             }
 
             builder.finish();
+            core::mem::forget(guard);
 
             Box::from_raw(ptr.cast()) // IntrusiveArrayBuilder::array_assume_init
         }
